@@ -1,11 +1,11 @@
 package main
 
 import (
-	"os"
 	"fmt"
 	"go/ast"
 	"go/token"
 	"go/types"
+	"os"
 	"strconv"
 	"strings"
 )
